@@ -712,6 +712,19 @@ def _worker(job):
                 for r in recs:
                     r['npaths'] = len(paths)
                 out.extend(recs)
+                if pid != 'C07' and not any(s.outcome == 'return' for s in paths):
+                    # vacuity guard: the clauses above speak about returned texts; a decoder that raises on every window has none.
+                    # Reported as a violation only with a failing input (the decoder really raises), otherwise undecided.
+                    s0 = paths[0]
+                    req, _m = decoders.concretize(s0)
+                    site = s0.exc.site if getattr(s0, 'exc', None) is not None else None
+                    viol = None
+                    if req is not None:
+                        viol = {'request': dict(req, kind='decoder', expect={'no_raise': True}),
+                                'what': '%s decoder raises %s on every window, so no text is produced' % (name, getattr(s0.exc, 'cls_name', '?')),
+                                'solver_output': 'no returning path; first raise site %s' % (site,), 'must_reproduce': True}
+                    out.append(rec('%s/%s.%s/decodes-some-window' % (pid, mod, name), 'refuted' if viol else 'unsupported', 'symbolic execution',
+                                   0, fq, 'every path of the decoder ends in an exception', viol=viol))
             except Unsupported as e:
                 from pyvc.values import FrameViolation
                 if isinstance(e, FrameViolation):
@@ -786,6 +799,10 @@ def absorb(run, recs, replay=True):
                     if reproduced:
                         v['request'] = rq
                         break
+            if v.get('must_reproduce') and not reproduced:
+                run.add(r['name'], 'unsupported', '', r['ms'], r['function'], r['detail'])
+                run.undecide(r['name'], 'not reproduced on the real code: ' + r['detail'])
+                continue
             known = run.known_for(r['name'])
             run.add(r['name'], 'known-finding' if known else 'refuted', r['backend'], r['ms'], r['function'], r['detail'], r['kind'])
             run.violation(r['name'], {'request': v.get('request'), 'native': nat, 'solver_output': v.get('solver_output', ''),
